@@ -177,3 +177,5 @@ def check(ctx):
         ctx.ob("flow.filename-not-serialised", save, call, not bad,
                "the destination path is not an argument of dumps" if not bad else
                "the destination path flows into dumps", node=n)
+    from .paths import check_save_load_path
+    check_save_load_path(ctx)
